@@ -126,6 +126,7 @@ PARTIAL_CALLS: Dict[str, Tuple[type, ...]] = {
     "random.choice": (IndexError,),
     "builtins.next": (StopIteration,),
     "builtins.chr": (ValueError, OverflowError),
+    "builtins.hex": (TypeError,), "builtins.oct": (TypeError,), "builtins.bin": (TypeError,),
     "re._parser.parse": (_re.error, OverflowError),
     "sre_parse.parse": (_re.error, OverflowError),
 }
